@@ -3,7 +3,10 @@ import os
 from .. import common
 
 PAGE = 4096
-UNITS = ["nop\n", "ret\n", "clc\n", "mov rax, rbx\n", "; c\n", "add rax, 1\r\n", "lbl:\n", "push r9\n"]
+UNITS = ["nop\n", "ret\n", "clc\n", "mov rax, rbx\n", "; c\n", "add rax, 1\r\n", "lbl:\n", "push r9\n",
+         # option-sensitive lines: the settings of the instance (options, chunk fitting, start offset) must reach the file entry points
+         "mov rax, 0x7fffffff\n", "lea r15, [rax+rsp]\n", "lea rcx, [2*rbx]\n"]
+MASKS = ["211", "000", "111", "200", "011", "110", "101", "210"]
 
 
 def content(size, ending, rnd):
@@ -73,6 +76,17 @@ def run(tier):
                 # (the string side of a LARGE content works on a caller buffer: a defect of the library-managed buffer's growth would
                 # otherwise be the same on both sides)
                 cmds = ["wrap reset", "wrap guardfiles 1", "new 0 int", "new 1 int" if size < 60000 else "new 1 ext %d H 0xcc" % (size + 65536)]
+                # the same settings on both instances: option combination, chunk fitting (file variant), start offset
+                mk = rnd.choice(MASKS) if fid % 2 else "211"
+                for i in (0, 1):
+                    cmds += ["opt %d mov %s" % (i, mk[0]), "opt %d swap %s" % (i, mk[1]), "opt %d nobase %s" % (i, mk[2])]
+                if variant == "file" and fid % 3 == 0:
+                    cf = rnd.choice([16, 64, 7])
+                    cmds += ["chunk 0 %d" % cf, "chunk 1 %d" % cf]
+                if fid % 4 == 1 and size < 60000:  # (both instances on library buffers: the unwritten bytes below the start are zero on both)
+                    k0 = rnd.choice([5, 4097, 70000])
+                    cmds += ["setoff 0 %d" % k0, "setoff 1 %d" % k0]
+                nset = len(cmds) - 4
                 if variant == "file":
                     # one case in five goes through the deprecated alias assemble_file()
                     cmds += ["%s 0 %s" % ("fileold" if fid % 5 == 0 else "file", path), "asm 1 %s" % common.hx(text)]
@@ -80,7 +94,7 @@ def run(tier):
                     cmds += ["filecnt 0 %d %s" % (c, path), "cnt 1 %d %s" % (c, common.hx(text))]
                 cmds += ["sumoff 0", "sumoff 1", "wrapreport"]
                 cases.append(cmds)
-                meta.append(("content", size, ending, variant, path))
+                meta.append(("content", size, ending, variant, path, nset))
     # arbitrary bytes: valid programs with byte-level damage (every byte value except NUL, which a C string cannot carry; byte order
     # marks and other prefixes an editor or a shell leaves behind; CR / FF / VT / 0x1a; damage at the very beginning, at line starts and at
     # the very end) - the string entry point mostly REJECTS these, and so must the file entry points; where it accepts, the results agree
@@ -136,10 +150,11 @@ def run(tier):
             cmds += ["filecnt 0 %d %s" % (c, path), "cnt 1 %d %s" % (c, common.hx(raw))]
         cmds += ["sumoff 0", "sumoff 1", "wrapreport"]
         cases.append(cmds)
-        meta.append(("content", len(raw), "raw " + ",".join(how), variant, path))
+        meta.append(("content", len(raw), "raw " + ",".join(how), variant, path, 0))
     # several files one after the other on the SAME instance (longer, then shorter, then empty, line-aligned or not): what an
     # earlier file call left behind (a cached mapping, a stale tail) must not show in a later one
     made = [(m[4], m[1]) for m in meta if m[0] == "content" and m[3] == "file" and not m[2].startswith("raw")]
+    meta = [tuple(m) + ((0,) if len(m) == 5 else ()) for m in meta]
     texts = {}
     for pth, _ in made:
         with open(pth, newline="") as f:
@@ -204,7 +219,8 @@ def run(tier):
     res = common.run_cases(binary, cases, tag="c19")
     stats = {"content_cases": 0, "sizes": len(sizes), "page_multiple_sizes": sum(1 for s in sizes if s and s % PAGE == 0), "empty_files": 0, "badpath_cases": 0, "bin_cases": 0, "guarded_mappings": 0,
              "file_rc0": 0, "file_rc1": 0}
-    for (kind, a, b, variant, path), cmds, r in zip(meta, cases, res):
+    meta = [tuple(m) + ((0,) if len(m) == 5 else ()) for m in meta]
+    for (kind, a, b, variant, path, nset), cmds, r in zip(meta, cases, res):
         v.count()
         case = {"key": "%s %s %s %s" % (kind, a, b, variant), "fam": "file_" + kind, "variant": variant, "size": a if kind == "content" else None}
         if r["crash"]:
@@ -214,15 +230,16 @@ def run(tier):
         if kind == "content":
             stats["content_cases"] += 1
             stats["empty_files"] += a == 0
-            f, s, s0, s1 = recs[4].split(), recs[5].split(), recs[6].split(), recs[7].split()
-            stats["guarded_mappings"] += int(recs[8].split("gmaps=")[1])
+            f, s, s0, s1 = recs[4 + nset].split(), recs[5 + nset].split(), recs[6 + nset].split(), recs[7 + nset].split()
+            stats["guarded_mappings"] += int(recs[8 + nset].split("gmaps=")[1])
+            stats["content_cases_with_settings"] = stats.get("content_cases_with_settings", 0) + (nset > 6)
             stats["file_rc%s" % f[1]] = stats.get("file_rc%s" % f[1], 0) + 1
             if b.startswith("raw"):
                 stats["raw_rc%s" % f[1]] = stats.get("raw_rc%s" % f[1], 0) + 1
             if f[1] != s[1]:
-                v.violation(case, "rc:file=%s,string=%s" % (f[1], s[1]), "file %s | string %s" % (recs[4], recs[5]))
+                v.violation(case, "rc:file=%s,string=%s" % (f[1], s[1]), "file %s | string %s" % (recs[4 + nset], recs[5 + nset]))
             elif f[3] != s[3] or s0[1:] != s1[1:]:
-                v.violation(case, "offset/bytes-differ", "file %s %s | string %s %s" % (recs[4], recs[6], recs[5], recs[7]))
+                v.violation(case, "offset/bytes-differ", "file %s %s | string %s %s" % (recs[4 + nset], recs[6 + nset], recs[5 + nset], recs[7 + nset]))
             elif variant == "filecnt" and f[4] != s[4]:
                 v.violation(case, "count-differs", "file %s | string %s" % (f[4], s[4]))
             else:
@@ -278,7 +295,7 @@ def run(tier):
             else:
                 v.distinct((kind, off, b, os.path.basename(path)))
     v.cov["rule"] = ("file contents of EVERY size 0..64 and every size within +/-16 of 1, 2 and 3 pages x 6 endings (newline, none, inside a comment, inside an instruction, a complete instruction / ret as last line without newline; CRLF lines inside) x both file entry points, plus valid programs with byte-level damage (byte order marks and other prefixes, any byte value 1..255 inserted / replaced at the beginning, the end, line starts or anywhere, odd line separators), "
-                     "differentially against the string entry points on the same content (rc, offset, count, FNV of the code); ld --wrap mmap puts a PROT_NONE page right after every non-executable mapping the "
+                     "differentially against the string entry points on the same content under the same settings (option combination, chunk fitting, start offset; the contents contain option-sensitive lines) (rc, offset, count, FNV of the code); ld --wrap mmap puts a PROT_NONE page right after every non-executable mapping the "
                      "library creates, so a missing terminator faults deterministically; missing / directory / ENOTDIR paths must fail and leave the instance usable; asm_create_bin_file at offsets 0,1,2,19,4095..4097,6000,20000,65535..65537,2^20+5 must equal [0,offset), also onto existing longer / shorter files, through a symlink, and twice to the same path (more code; offset moved back); sequences of 2-6 file calls of (mostly) decreasing size, ending with an empty file, on ONE instance, each step compared with the string entry point")
     v.cov["exhaustive"] = True
     v.cov.update(stats)
